@@ -364,6 +364,10 @@ def bounded(ctx, env, real):
     if ctx.tier == "quick" and len(strings) > 120000:
         strings = [s for s in strings if len(s) <= 3] + rng.sample([s for s in strings if len(s) > 3], 80000)
     strings += ["1:2:3-4-5", "1.0-1", "0:1-", "1:-", "-1", "1:a-b:c", "1-a:b", "a" * 30 + "-1"]
+    # components of any length are valid: digit runs beyond every fixed width and beyond the interpreter's own limit for
+    # int(str) (4300 digits by default) - constructing, decomposing and printing never needs their numeric value
+    big = "9" * 4301
+    strings += [big + ":1.0-1", "1:" + big + "-1", "1." + big, "1-" + big, big, "0" * 4301 + ":1"]
     # characters that Python's str methods (isdigit, isalnum, int(), lower ...) treat like ASCII ones but the Policy does not
     exotic = ["\u0663", "\uff17", "\u00b2", "\u212a", "\u0131", "\u017f", "_", "\u00e9"]
     strings += [a + b + c for a in ("", "1", "1:", "1.") for b in exotic for c in ("", "0", "-1", b)]
@@ -392,7 +396,7 @@ def bounded(ctx, env, real):
                 samples.append({"input": s, "fields": list(got)})
     hist = 0
     if fail is None:
-        values = {"epoch": [None, "0", "1", "", "x", "1:", "٠"], "upstream_version": ["1", "1.0", "a-b", "a:b", "a:3-4", "", " ", "1\n", "é"],
+        values = {"epoch": [None, "0", "1", "", "x", "1:", "٠", "9" * 4301], "upstream_version": ["1", "1.0", "a-b", "a:b", "a:3-4", "", " ", "1\n", "é"],
                   "debian_revision": [None, "1", "", "a-b", "a:b", "~1", "1 "], "debian_version": [None, "2", "b:c"],
                   "full_version": ["2.0-1", "1:2", "x:1", "", "1-", "3\n"]}
         rounds = 1500 if ctx.tier == "quick" else 12000
